@@ -1038,6 +1038,34 @@ func (w *ledgerWorld) slash(prev *ledgerSnap, op sdk.AccAddress) *ledgerSnap {
 	isReplay := rerr == nil
 	// (F-04b, fixed in /repo: an operator whose pools are all empty made SlashAssets divide by zero;
 	// such slashes are generated on purpose and must be refused without a trace.)
+	// the proportion the property prescribes, computed here from the snapshot taken before the slash:
+	// min(1, power x factor / value), value = sum over ALL pools of the operator of the USD value of
+	// (amount + unbonding amount) at the oracle's current price
+	var wantP *sdkmath.LegacyDec
+	func() {
+		value := sdkmath.LegacyZeroDec()
+		for k, pl := range prev.pools {
+			if !strings.HasPrefix(k, op.String()+"/") {
+				continue
+			}
+			assetID := strings.SplitN(k, "/", 2)[1]
+			ai, aerr := c.App.AssetsKeeper.GetStakingAssetInfo(c.Ctx, assetID)
+			if aerr != nil {
+				return // the code refuses such a slash (F-04c for the native token): no prescribed proportion
+			}
+			price, perr := c.App.OracleKeeper.GetSpecifiedAssetsPrice(c.Ctx, assetID)
+			if perr != nil && !strings.Contains(perr.Error(), "no valid price") {
+				return
+			}
+			base := sdkmath.NewIntFromBigInt(new(big.Int).Add(pl.amount, pl.pending))
+			value = value.Add(operatorkeeper.CalculateUSDValue(base, price.Value, ai.AssetBasicInfo.Decimals, price.Decimal))
+		}
+		if !value.IsPositive() {
+			return
+		}
+		wp := sdkmath.LegacyMinDec(sdkmath.LegacyOneDec(), sdkmath.LegacyNewDec(power).Mul(sdkmath.LegacyMustNewDecFromStr(factor)).Quo(value))
+		wantP = &wp
+	}()
 	var err error
 	func() {
 		defer func() {
@@ -1104,6 +1132,12 @@ func (w *ledgerWorld) slash(prev *ledgerSnap, op sdk.AccAddress) *ledgerSnap {
 	one := sdkmath.LegacyOneDec()
 	if p.IsNegative() || p.GT(one) {
 		w.env.Violate("C04.slash", "proportion-range", "effective slash proportion outside [0,1]: "+p.String(), w.hist)
+	}
+	if wantP != nil && !wantP.Equal(p) {
+		w.env.Violate("C04.slash", "proportion-formula", fmt.Sprintf("effective slash proportion %s, the property prescribes min(1, power*factor/value over all pools incl. unbonding) = %s", p, wantP), w.hist)
+	}
+	if wantP != nil {
+		w.env.Outcome("slash.proportion-checked")
 	}
 	trunc := func(x *big.Int) *big.Int { return p.MulInt(sdkmath.NewIntFromBigInt(x)).TruncateInt().BigInt() }
 	poolCut := map[string]*big.Int{}
